@@ -205,12 +205,13 @@ impl PrettyParseError {
             )
         };
         let err_string = format!(
-            "{err}\n{arrow}{position}\n{pipe}\n{pipe}{the_line}\n{pipe}{caret:>caret_offset$}\n",
+            "{err}\n{arrow}{position}\n{pipe}\n{pipe}{the_line}\n{pipe}{padding}{caret}\n",
             err = err.specifics.to_string().bold().white(),
             position = position,
             the_line = target_line.s.trim_end(),
+            // Not `{caret:>width$}`: a run-time format width above u16::MAX panics.
+            padding = " ".repeat(character_position),
             caret = "^".bold().red(),
-            caret_offset = character_position + 1,
             arrow = "--> ".bold().blue(),
             pipe = " |  ".bold().blue(),
         );
